@@ -5,7 +5,7 @@ SRC = 'C13.cpp'
 
 INT_NAMES = dict(i8='int8', u8='uint8', i16='int16', u16='uint16', i32='int32', u32='uint32', i64='int64', u64='uint64',
                  i128='int128', u128='uint128', W100='wide_integer<100>', W100U='wide_integer<100,unsigned>',
-                 W200='wide_integer<200>', E7N8='elastic_integer<7,int8_t>', E33N8='elastic_integer<33,int8_t>', EU32N8='elastic_integer<32,uint8_t>', OVU8='overflow_integer<uint8_t>', W7C='wide_integer<7,signed char>', E1='elastic_integer<1>', E2='elastic_integer<2>', E3='elastic_integer<3>', E7='elastic_integer<7>', E31='elastic_integer<31>',
+                 W200='wide_integer<200>', E7N8='elastic_integer<7,int8_t>', OVU32='overflow_integer<unsigned>', RNU32='rounding_integer<unsigned>', E33N8='elastic_integer<33,int8_t>', EU32N8='elastic_integer<32,uint8_t>', OVU8='overflow_integer<uint8_t>', W7C='wide_integer<7,signed char>', E1='elastic_integer<1>', E2='elastic_integer<2>', E3='elastic_integer<3>', E7='elastic_integer<7>', E31='elastic_integer<31>',
                  OVN='overflow_integer<int>', RND='rounding_integer<int>')
 RADIX_E = list(range(-5, 6))
 RADIX_EQ = [-5, -3, -1, 0, 2, 5]
@@ -21,7 +21,7 @@ def programs(t, subset='all'):
         ints.append('I(%s, 16, "%s")' % (ty, INT_NAMES[ty]))
     for ty in ['i16', 'u16']:
         ints.append('I(%s, %d, "%s")' % (ty, fb16, INT_NAMES[ty]))
-    for ty in ['i32', 'u32', 'i64', 'u64', 'E31', 'OVN', 'RND', 'E33N8', 'EU32N8']:
+    for ty in ['i32', 'u32', 'i64', 'u64', 'E31', 'OVN', 'RND', 'E33N8', 'EU32N8', 'OVU32', 'RNU32']:
         ints.append('I(%s, 16, "%s")' % (ty, INT_NAMES[ty]))
     if subset == 'all':
         for ty in ['i128', 'u128', 'W100', 'W100U', 'W200']:
@@ -58,6 +58,8 @@ def programs(t, subset='all'):
         scw.append('S(i64, 1, 16, 8)')
         scw.append('S(i32, 2, 16, 8)')
         scw.append('S(i64, -3, 16, 8)')
+        scw.append('S(i32, -4, 16, 8)')
+        scw.append('S(u32, -3, 16, 8)')
     else:
         # the unsanitised / ASan units also see a few 64-bit reps (what a release build prints at the type's extremes)
         for e in (-32, -8, 0):
